@@ -31,6 +31,9 @@ func runC18(c *Ctx) {
 
 	checkPageTagging(c, "R1")
 	checkNoSliceExtension(c, "R8")
+	// R11 (shared with C01.R3): a DATA reply carries buf[:n] — with the whole buffer the bytes behind n are whatever the
+	// page held before (another request's data), and the reply differs from the one made without the allocator
+	c.withOnly("R3", "R11", func() { runC01Server(c) })
 	checkNoPageRetained(c, "R10")
 
 	// ---------- R2 READ data page tagged with the request's order id ----------
@@ -669,6 +672,23 @@ func checkEOFConditionX(c *Ctx, fn *ssa.Function, call *ssa.Call, rule, name str
 					}
 				}
 				if sel {
+					status = 1
+					break
+				}
+			}
+			if viaErrVar && b != start {
+				// … or the arm builds the STATUS reply from the call's error on the spot
+				made := false
+				for _, in := range b.Instrs {
+					if cc := callOf(in); cc != nil && calleeName(cc) == "statusFromError" {
+						for _, a := range cc.Args {
+							if a == ssa.Value(errEx) || stripConv(a) == ssa.Value(errEx) {
+								made = true
+							}
+						}
+					}
+				}
+				if made {
 					status = 1
 					break
 				}
